@@ -7,7 +7,9 @@
 (*   [k |-> "select", from, where, proj, distinct, order, limit]           *)
 (*   from  : [k |-> "table", name, as] | [k |-> "sub", q, as] |            *)
 (*           [k |-> "with", q, as]  (WITH as AS (q) SELECT ... FROM as) |  *)
-(*           [k |-> "join", kind, l, r, on]                                *)
+(*           [k |-> "join", kind, l, r, on] |                              *)
+(*           [k |-> "dstar", name, as]  ((SELECT DISTINCT * FROM name) as)  *)
+(*           [k |-> "star", name, as]   ((SELECT * FROM name) as)           *)
 (*   where : expression or None;  proj : <<[e, as]>>;  order : <<[e, dir]>>*)
 (*   limit : -1 or n                                                       *)
 (* Expressions: [e |-> "col", q (qualifier or ""), c] | "int" | "str" |    *)
@@ -111,6 +113,9 @@ EvalFrom(f, DB) ==
                         [cols |-> [i \in 1..Len(t.cols) |-> <<f.as, t.cols[i]>>],
                          rows |-> [r \in 1..Len(t.rows) |-> [k \in {<<f.as, t.cols[i]>> : i \in 1..Len(t.cols)} |-> t.rows[r][k[2]]]]]
     [] f.k \in {"sub", "with"} -> Requal(EvalQuery(f.q, DB).rel, f.as)
+    [] f.k = "star" -> EvalFrom([k |-> "table", name |-> f.name, as |-> f.as], DB)                    \* (SELECT * FROM mem.name x) as
+    [] f.k = "dstar" -> LET base == EvalFrom([k |-> "table", name |-> f.name, as |-> f.as], DB) IN    \* (SELECT DISTINCT * FROM mem.name x) as
+                        [cols |-> base.cols, rows |-> DedupSeq(base.rows)]
     [] f.k = "join" ->
          LET L == EvalFrom(f.l, DB) R == EvalFrom(f.r, DB)
              match(a, b) == IsTrue(EvalE(f.on, JoinEnv(a, b)))
@@ -184,6 +189,8 @@ RECURSIVE RenderFrom(_), RenderQ(_)
 RenderFrom(f) ==
   CASE f.k = "table" -> "mem." \o f.name \o " " \o f.as
     [] f.k = "sub"   -> "(" \o RenderQ(f.q) \o ") " \o f.as
+    [] f.k = "star"  -> "(SELECT * FROM mem." \o f.name \o " x) " \o f.as
+    [] f.k = "dstar" -> "(SELECT DISTINCT * FROM mem." \o f.name \o " x) " \o f.as
     [] f.k = "with"  -> f.as \o " " \o f.as
     [] f.k = "join"  -> RenderFrom(f.l) \o (CASE f.kind = "inner" -> " JOIN " [] f.kind = "left" -> " LEFT JOIN " [] f.kind = "right" -> " RIGHT JOIN "
                                               [] f.kind = "outer" -> " OUTER JOIN " [] f.kind = "lookup" -> " LOOKUP JOIN ")
